@@ -748,7 +748,10 @@ func (sp *sourcePrinter) functions(f *sourceFile) []sourceFunction {
 		// See if we should merge into preceding function.
 		if len(funcs) > 0 {
 			last := funcs[len(funcs)-1]
-			if l-last.end < mergeLimit && last.name == name {
+			// The gap is negative if it overflows (line numbers come from the
+			// profile and can be arbitrary); merging then would create a
+			// function spanning nearly all integers.
+			if gap := l - last.end; gap >= 0 && gap < mergeLimit && last.name == name {
 				last.end = l + 1
 				last.flat += fn.flat
 				last.cum += fn.cum
@@ -775,9 +778,10 @@ func (sp *sourcePrinter) functions(f *sourceFile) []sourceFunction {
 			}
 		} else {
 			// Find gap from predecessor and divide between predecessor and f.
-			halfGap := (f.begin - funcs[i-1].end) / 2
-			if halfGap > expand {
-				halfGap = expand
+			halfGap := expand
+			if gap := f.begin - funcs[i-1].end; gap >= 0 && gap/2 < expand {
+				// gap is negative only if the subtraction overflowed.
+				halfGap = gap / 2
 			}
 			funcs[i-1].end += halfGap
 			f.begin -= halfGap
